@@ -219,8 +219,11 @@ class Runner(object):
         os.makedirs(os.path.join(pdir, "daemon"), exist_ok=True)
         for rel, subs in ob.patch.items():
             txt = open(os.path.join(REPO, rel), encoding="latin-1").read()
-            for pat, rep in subs:
-                txt, n = re.subn(pat, rep, txt)
+            if callable(subs):          # e.g. extract a subset of functions from the CURRENT source (regenerated on every run)
+                txt = subs(txt)
+            else:
+                for pat, rep in subs:
+                    txt, n = re.subn(pat, rep, txt)
             with open(os.path.join(pdir, rel), "w", encoding="latin-1") as f:
                 f.write(txt)
         return ["-I" + pdir, "-I" + os.path.join(pdir, "src")]
